@@ -9,6 +9,7 @@ CONSTANTS
   HintNames = {".", "c", "d"}
   BodyPool <- BodyRefs
   FragPool <- NoFrags
+  FileMeta <- Meta0
   Preambles <- Pre012
   MaxOps = 4
   MaxBody = 3
